@@ -773,7 +773,7 @@ fn main() {
         run.case("consts", "GConsts".into(), format!("(GConstsAre {} {} {})",
             service::MAX_TIME_DELTA.as_millis(), service::GOSSIP_INTERVAL.as_millis(), service::ANNOUNCE_INTERVAL.as_millis()));
     }
-    let n = run.args.count(110, 1700);
+    let n = run.args.count(110, 600);
     for i in 0..n {
         for (stream, len) in [(0u64, 14usize), (1u64, 40usize), (2u64, 26usize)] {
             let id = format!("{}:{}", stream, i);
